@@ -509,6 +509,8 @@ def c08_extra(tier, seed, lean):
     import concurrent.futures as cf
     for (N, M) in shapes:
         progs = [c08.gen_program(rng, N, M, steps) for _ in range(nprog // len(shapes))]
+        if (N, M) == shapes[0] or tier == 'thorough':
+            progs += c08.directed_programs(N, M)
         digests = []
         for ops in progs:
             h, err = c08.model_digest(ops, N, M)
